@@ -115,8 +115,8 @@ def check(topo, eqpt, key, junction):
         wit.append({'key': key, 'problems': prob[:6]})
 
 
-span_sets = [[80], [20, 80], [0.001, 160], [1200]] if a.tier == 'quick' else \
-    [[80], [20, 80], [0.001, 160], [1200], [40, 40, 40], [160, 0.001], [5]]
+span_sets = [[80], [20, 80], [0.001, 160], [1200], [130], [75]] if a.tier == 'quick' else \
+    [[80], [20, 80], [0.001, 160], [1200], [130], [75], [40, 40, 40], [160, 0.001], [5]]
 names = ['line2', 'ring3', 'star4', 'mesh4'] if a.tier == 'quick' else list(TOPOLOGIES)
 for name in names:
     sites, links = TOPOLOGIES[name]
@@ -124,17 +124,23 @@ for name in names:
         for junction in ('none', 'fused', 'edfa'):
             if junction != 'none' and len(sp) == 1:
                 continue
-            for gain_mode in (False, True):
+            for gain_mode, max_len in itertools.product((False, True), (None, 60, 100)):
+                if max_len is not None and (gain_mode or name not in ('line2', 'ring3')):
+                    continue
                 eq = equipment()
                 eq['Span']['default'].power_mode = not gain_mode
+                if max_len is not None:
+                    # another maximum span length of the library: fibres between it and 90 km, and long ones, must still be
+                    # split into equal spans none of which is longer
+                    eq['Span']['default'].max_length = max_len
                 topo = mesh(sites, links, spans={l: sp for l in links}, junction=junction)
                 cases += 1
+                key = f'{name}:{sp}:{junction}:{"gain" if gain_mode else "power"}' + (f':max_length{max_len}' if max_len else '')
                 try:
-                    check(topo, eq, f'{name}:{sp}:{junction}:{"gain" if gain_mode else "power"}', junction)
+                    check(topo, eq, key, junction)
                 except Exception as e:
-                    wit.append({'key': f'{name}:{sp}:{junction}:{"gain" if gain_mode else "power"}',
-                                'problems': [f'{type(e).__name__}: {e}']})
+                    wit.append({'key': key, 'problems': [f'{type(e).__name__}: {e}']})
 finish('designed network is a complete line system' + (' with closed power budget' if POWERS else ''), 'bounded',
        'gnpy.tools.worker_utils.designed_network (build_network, add_missing_elements_in_network)',
-       f'topologies {names} x spans {span_sets} km x junction none/fused/edfa x power/gain mode, default eqpt_config.json',
+       f'topologies {names} x spans {span_sets} km x junction none/fused/edfa x power/gain mode, default eqpt_config.json (+ Span max_length 60 / 100 km on line2, ring3)',
        cases, wit, t0=t0)
